@@ -336,6 +336,15 @@ def _syncing(parameterized, parameters):
         parameterized._param__private.syncing = old
 
 
+def _watcher_list(obj, parameter_name, what):
+    """The list holding the watchers of parameter_name of obj (an instance or a class), or None."""
+    if isinstance(obj, Parameterized) and what == 'value':
+        return obj._param__private.watchers.get(parameter_name, {}).get(what)
+    if parameter_name not in obj.param:
+        return None
+    return obj.param[parameter_name].watchers.get(what)
+
+
 @contextmanager
 def _sync_scope(parameterized, updates):
     """
@@ -2412,7 +2421,7 @@ class Parameters:
         obj = self_.self
         init_methods = []
         for method, queued, on_init, constant, dynamic in type(obj).param._depends['watch']:
-            requeue = []
+            requeue, places = [], {}
             # On initialization set up constant watchers; otherwise
             # clean up the previous dynamic watchers of the methods with a
             # dependency routed through the updated attribute. All dynamic
@@ -2442,18 +2451,18 @@ class Parameters:
             elif affected:
                 for w in obj._param__private.dynamic_watchers.pop(method, []):
                     wobj = w.cls if w.inst is None else w.inst
+                    # (remembered before it goes: where it stood among the
+                    # watchers of each parameter, and whether it is waiting
+                    # for the end of a batch)
+                    for pname in w.parameter_names:
+                        lst = _watcher_list(wobj, pname, w.what)
+                        if lst is not None and w in lst:
+                            places[(id(wobj), pname, w.what)] = lst.index(w)
                     wobj.param.unwatch(w)
-                    # A watcher waiting for the end of a batch hands its
-                    # place in the queue over to the watcher replacing it
-                    # below, so that the method still runs exactly once
-                    # (compared by value: in a deep copy the watcher kept
-                    # here and the one registered on the sub-object are equal
-                    # but distinct tuples)
-                    waiting = wobj.param._state_watchers
-                    if any(w == q for q in waiting):
-                        wobj.param._state_watchers = [q for q in waiting if not (w == q)]
-                        requeue.append(wobj)
+                    if any(w == q for q in wobj.param._state_watchers):
+                        requeue.append((wobj, w))
 
+            installed = []
             for key, group in constant_grouped.items():
                 if key in grouped:
                     continue
@@ -2462,17 +2471,37 @@ class Parameters:
                     # Which parameters the dynamic watchers serve changes
                     # with the sub-objects: set up again along with them
                     obj._param__private.dynamic_watchers[method].append(watcher)
-                    wobj = watcher.cls if watcher.inst is None else watcher.inst
-                    if any(wobj is o for o in requeue):
-                        wobj.param._state_watchers.append(watcher)
+                    installed.append(watcher)
 
             for key, group in grouped.items():
                 group = group + constant_grouped.get(key, [])
                 watcher = self_._watch_group(obj, method, queued, group, attribute)
                 obj._param__private.dynamic_watchers[method].append(watcher)
+                installed.append(watcher)
+
+            for watcher in installed:
+                # A watcher set up again takes the place of its predecessor
+                # among the watchers of a parameter (the order in which the
+                # methods of an object run does not change) ...
                 wobj = watcher.cls if watcher.inst is None else watcher.inst
-                if any(wobj is o for o in requeue):
-                    wobj.param._state_watchers.append(watcher)
+                for pname in watcher.parameter_names:
+                    place = places.get((id(wobj), pname, watcher.what))
+                    lst = _watcher_list(wobj, pname, watcher.what)
+                    if place is not None and lst and lst[-1] is watcher:
+                        lst.insert(min(place, len(lst) - 1), lst.pop())
+            for wobj, w in requeue:
+                # ... and in the queue, if the predecessor was waiting for
+                # the end of a batch, so that the method still runs exactly
+                # once (compared by value: in a deep copy the watcher kept
+                # here and the one registered on the sub-object are equal
+                # but distinct tuples). A waiting watcher without successor
+                # on its object - the object was detached - stays queued.
+                successor = next((n for n in installed
+                                  if (n.cls if n.inst is None else n.inst) is wobj and n.what == w.what
+                                  and set(n.parameter_names) & set(w.parameter_names)), None)
+                if successor is not None:
+                    wobj.param._state_watchers = [
+                        successor if w == q else q for q in wobj.param._state_watchers]
         for m in init_methods:
             m()
 
@@ -2510,7 +2539,9 @@ class Parameters:
         if p == 'param' or p.endswith('.param'):
             # Compare all the parameters of the final sub-object
             prefix = p[:-len('param')]
-            subparams = [] if subobjs[-1] is None else [prefix + sp for sp in list(subobjs[-1].param)]
+            # (while the final sub-object is missing there is nothing to
+            # compare: whatever gets attached along the path counts)
+            subparams = None if subobjs[-1] is None else [prefix + sp for sp in list(subobjs[-1].param)]
         else:
             subparams = [p]
 
